@@ -798,10 +798,5 @@ KEEP += KEEP_AGENTS
 # rewrites by independent authors that are NOT silent yet (the checks report them or stop): kept in the catalogue, reported as
 # open by tools/run_selftest.py, one reason each (DESIGN 8.5, eighth campaign)
 OPEN_REWRITES = {
-    'R04-6': 'one per-solution cost closure with `match &self.constraints { Some(c) if c.sorting_weight != BY_PREV => weighted, _ => distance }` used on both sides of one sort_by: R04.4 reads one cost per comparator, selected by the branch the comparator sits in',
-    'R17-5': 'source and target bases through a helper orthonormal_basis(v1, v2) -> Option<Matrix3> (as R17-2): R17.2 reads the two column triples in the body',
-    'R17-6': 'the congruence guard as SIDES.iter().all(|&(from, to)| ..) over arrays of the points: R17.3 reads three conjoined comparisons',
-    'R17-7': 'Matrix3::from_rows of the axes instead of from_columns(..).transpose(), Rotation3::from_matrix_unchecked(..).into(): R17.2 reads from_columns * transpose',
     'R04-3': 'near-normaliser as a value-returning fn applied through array::from_fn: role and call sites are read as fn(&mut f64, f64)',
-    'R17-2': 'source and target bases through orthonormal_basis(o, x, y) -> Option<Matrix3> and ok_or_else(..)?: R17.1/R17.2 read the two column triples',
 }
